@@ -568,8 +568,15 @@ class PseudoNetCDFFile(PseudoNetCDFSelfReg, object):
         if clean not in ('none', 'mask'):
             raise NotImplementedError(clean + ' clean not implemented')
 
+        def signed(a):
+            # differences of unsigned integers wrap around: a descending
+            # uint16 coordinate would look ascending
+            if a.dtype.kind == 'u':
+                return a.astype('i8' if a.dtype.itemsize < 8 else 'd')
+            return a
+
         dimv = self.variables[dim]
-        dimvals = dimv[...]
+        dimvals = signed(dimv[...])
         if dimvals.ndim > 1:
             raise ValueError(
                 'val2idx is only implemented for 1-D coordinate variables'
@@ -585,9 +592,9 @@ class PseudoNetCDFFile(PseudoNetCDFSelfReg, object):
                 continue
             dimbv = self.variables[dimbk]
             if dimbv.ndim == 1:
-                dimevals = dimbv[:]
+                dimevals = signed(dimbv[:])
             elif dimbv.ndim == 2 and dimbv.shape[1] == 2:
-                dimevals = np.append(dimbv[:, 0], dimbv[-1, 1])
+                dimevals = signed(np.append(dimbv[:, 0], dimbv[-1, 1]))
             else:
                 raise ValueError(
                     'val2idx is only implemented for 1-D or 2-D bounds' +
